@@ -231,6 +231,7 @@ struct Value {
                 type = T_DATA;
                 return;
             }
+            data.clear(); // TryHex leaves the bytes it read before the first non-hex character
         }
     }
 
